@@ -5,6 +5,7 @@ import (
 	"fmt"
 
 	"verif/internal/an"
+	"verif/internal/flow"
 )
 
 func init() {
@@ -193,4 +194,42 @@ func runC19Y56(c *Ctx) {
 		}
 	}
 	r.Min("C19-Y6", n, 2, "uses of errIgnoredRemoteApply")
+}
+
+// Y7: a failed replay of a remote snapshot must not move the synced position. postprocessRemoteApply advances the position
+// only when the state machine's apply returned no error; the error of handleCustomRequest (where a transferred remote
+// snapshot is restored) therefore has to *be* the error ApplyRaftRequest returns: the call's error result is assigned to
+// the very variable the final return hands out (a `:=` in the branch declares another one and the function returns nil).
+func c19Y7(c *Ctx) {
+	r := c.R
+	r.Clause("C19-Y7", "the error of the custom (remote snapshot) request is the error the state machine returns")
+	u := c.unit("C19-Y7", "node.(*kvStoreSM).ApplyRaftRequest")
+	if u == nil {
+		return
+	}
+	tv := tupleVars(u, "node.(*kvStoreSM).handleCustomRequest")
+	if len(tv) != 2 || tv[1] == "" {
+		r.Unknown("C19-Y7", u.Name+": result of handleCustomRequest", "", "not bound by a two-variable assignment")
+		return
+	}
+	// the term the last return statement hands out as the error
+	ret := ""
+	var last *an.Site
+	for _, s := range u.Sites {
+		if s.Kind == flow.SReturn && s.Block.Reachable() && len(s.Ret.Results) == 2 {
+			if last == nil || s.Pos > last.Pos {
+				last = s
+			}
+		}
+	}
+	if last != nil {
+		ret = u.C.Term(last.Ret.Results[1])
+	}
+	r.Check("C19-Y7", u.Name+": handleCustomRequest's error is stored in the variable the function returns", "", ret != "" && tv[1] == ret,
+		fmt.Sprintf("error of the call goes to %s, the function returns %s", tv[1], ret))
+}
+
+func init() {
+	old := registry["C19"].Run
+	registry["C19"].Run = func(c *Ctx) { old(c); c19Y7(c) }
 }
